@@ -24,6 +24,8 @@ type RunOp struct {
 	// SecondContext: another context over a scratch copy of the world is created before this run's
 	// context and executed while it is alive (two contexts in one process at the same time).
 	SecondContext bool `json:"second_context,omitempty"`
+	// ViaRegistry: the generators go through gengo.Register / GetRegisteredGenerators.
+	ViaRegistry bool `json:"via_registry,omitempty"`
 	// KeepExecutor / ReuseExecutor: the executor of this run stays alive in the worker / this run calls
 	// Execute on the executor the previous run kept (same process, same entrypoints, no edit in between).
 	KeepExecutor  bool `json:"keep_executor,omitempty"`
